@@ -605,6 +605,12 @@ func run(c *core.Case) {
 			sig = "C12|entry-changed|same-version-duplicates:ingest-buffer-tie"
 		case d.kind == "changed" && strings.Contains(held, "l0c") && multi:
 			sig = "C12|entry-changed|same-version-duplicates:l0-compaction-output-tie"
+		case d.kind == "changed" && !cfg.Controlled && multi && strings.Count(held, "l0") >= 2:
+			// natural background compaction: where the L0 tables came from cannot be observed, and
+			// an L0->L0 compaction output (file id above a memtable flushed later) is the one
+			// recorded way for two L0 tables to hold a (key, version) in an order that the
+			// file-id sort on Open reverses. Controlled cases tell the table kinds apart.
+			sig = "C12|entry-changed|same-version-duplicates:l0-compaction-output-tie"
 		}
 		fail(sig,
 			fmt.Sprintf("close/reopen #%d changed the contents seen through NewInternalIterator: %d difference(s), first: %s", round, len(ds), lines[0]),
